@@ -42,7 +42,11 @@ out = ['Sub-agents that saw only the property text and a scratch worktree produc
        'Cxx-11, Cxx-12 for C15 and C19, the sub-agents asked to aim one change each at media / report sections.  C15-12 was caught as the checks stood; C15-11 (an interface '
        'coordinate of exactly 0 treated as not given) needed coordinates 0 and below in the generator of the `media` stage, C19-12 (type of boundary taken from the radial '
        'screen) the VALUE of the boundary line in `Model/Env.v` (it had only the presence of the line), C19-11 (END CONNECTION of the per-object table from the position) '
-       'the per-object table in the report oracle.  After that every seed but the obsolete C20-2 is reported with a concrete failing input.', '',
+       'the per-object table in the report oracle.  Eighth round: Cxx-9, Cxx-10 for C08, C12, C17: three of six caught as the checks stood; C12-9 (per-coordinate instead of '
+       'Euclidean end distance) needed probes with offsets oblique to the axes, C08-10 (a per-object resistivity read as a conductivity in main) the resistivity form '
+       'of the per-object option in the command-line leg of the oracle, C17-9 (one load twice on one pulse acting once) and C17-10 (a per-object distributed load at '
+       'the junction pulse of a later object joined by its first end) the effect of the attachments on the matrix diagonal and a per-object skin-effect load in the '
+       'command-line phase of `addr`.  After that every seed but the obsolete C20-2 is reported with a concrete failing input.', '',
        '| seed | change (summary of the sub-agent) | result of the quick check |', '|------|------|------|'] + rows
 txt = '\n'.join(out)
 p = os.path.join(ROOT, 'DESIGN.md')
